@@ -42,6 +42,11 @@ CHECKS = {
          "Trusted: the run with collection disabled as reference (same engine, so evaluation defects cancel); hook H1 (generation stamp in Gc/GcBox). A missing guard is only exposed if an allocation falls inside the unguarded window of a generated shape.",
          "property-based random program generation (proptest choice tape) + metamorphic comparison across GC schedules + execution monitor",
          "§10 C02"),
+ "C15": ("exploration",
+         "Exhaustive enumeration of the structured double families (2^e and 10^e for every exponent with ±1/±2 ulp neighbours, every binary exponent x boundary mantissas, all subnormals with <= 2 set bits, integer edges around 2^31/2^32/2^53/10^21, decimal rounding ties and shortest-digit ties, every digit/radix argument) and of enumerated text families (grammar forms, invalid forms, 0x/0o/0b integers up to 100 digits incl. ties, exact binary midpoints as decimal texts), plus seeded random 64-bit patterns and texts (quick ~3e6, thorough ~7e7 evaluations). Every evaluation is one (input, conversion) pair at the Rust entry points or inside a program (String, template, keys, console.log, JSON.stringify, bitwise operators, toFixed/toPrecision/toExponential/toString(radix), Number, unary +, parseFloat, parseInt, ==, literals) judged against an independent reference (ryu digits + ES layout, exact BigUint arithmetic). Exhaustive inside the families, sampled beyond.",
+         "Trusted: harness/src/props/numref.rs + bigint.rs (self-tested), ryu cross-checked with core::fmt, str::parse verified by an exact rational predicate. Two open findings are excluded by construction and counted: toString(radix != 10) of non-integers, JSON.stringify number notation for |x| >= 2^53 and 1e-6 <= |x| < 1e-5. The check demands correct rounding beyond 20 significant digits, where ECMA-262 would tolerate the neighbour.",
+         "exhaustive enumeration of structured families + property-based random generation (proptest choice tape) against a reference model; node as secondary oracle on samples",
+         "§10 C15"),
 }
 
 NOT_YET = {}
